@@ -51,10 +51,20 @@ def names_for(kind, n):
 
 def mk_dag(names, edges, latents=()):
     from pgmpy.base import DAG
+    from pgmpy.models import BayesianNetwork
+    lat = [gen.lab(names[v]) for v in latents]
+    if latents and (len(edges) + len(latents)) % 2 == 0:
+        # the public way of declaring latent nodes one by one, on the class most users build; a latent declared on one graph
+        # object must never show up in another one (the workers build thousands of graphs in one process)
+        g = BayesianNetwork()
+        for x in names:
+            g.add_node(gen.lab(x), latent=gen.lab(x) in lat)
+        g.add_edges_from([(gen.lab(names[u]), gen.lab(names[v])) for u, v in edges])
+        return g
     g = DAG()
     g.add_nodes_from([gen.lab(x) for x in names])
     g.add_edges_from([(gen.lab(names[u]), gen.lab(names[v])) for u, v in edges])
-    g.latents = set(gen.lab(names[v]) for v in latents)
+    g.latents = set(lat)
     return g
 
 
